@@ -7,7 +7,7 @@
 #include <stdio.h>
 
 #define NTHREADS 16
-static pixman_image_t *shared, *shared_grad, *shared_clipped, *shared_acc;
+static pixman_image_t *shared, *shared_grad, *shared_clipped, *shared_acc, *shared_tile;
 static uint32_t tile8[2 * TILE_STRIDE_WORDS], tile16[2 * TILE_STRIDE_WORDS];
 static pthread_barrier_t bar;
 static int rounds = 40;
@@ -16,7 +16,7 @@ static void *worker(void *v)
 {
     int tid = (int)(intptr_t)v;
     for (int r = 0; r < rounds; r++) {
-        tctx_t t; body_setup(&t, tid % 3, shared); t.shared_grad = shared_grad; t.shared_clipped = shared_clipped; t.shared_acc = shared_acc; t.tile8 = tile8; t.tile16 = tile16; t.tile_ix = tid;
+        tctx_t t; body_setup(&t, tid % 3, shared); t.shared_grad = shared_grad; t.shared_clipped = shared_clipped; t.shared_acc = shared_acc; t.shared_tile = shared_tile; t.tile8 = tile8; t.tile16 = tile16; t.tile_ix = tid;
         pthread_barrier_wait(&bar);
         for (int k = 0; k < N_BODY_OPS; k++) body_run(&t, (k + tid + r) % N_BODY_OPS);
         body_teardown(&t);
@@ -38,6 +38,9 @@ int main(int argc, char **argv)
     static uint32_t cpix[DW * DH];
     shared_clipped = body_make_shared_clipped(cpix);
     pixman_image_composite32(PIXMAN_OP_OVER, shared_clipped, NULL, d, 1, 0, 0, 0, 0, 0, DW, DH);
+    static uint32_t tpix[64]; static uint32_t twide[2][40];
+    shared_tile = body_make_shared_tile(tpix);
+    { pixman_image_t *dw = pixman_image_create_bits(PIXMAN_a8r8g8b8, 40, 2, &twide[0][0], 160); pixman_image_composite32(PIXMAN_OP_SRC, shared_tile, NULL, dw, 3, 0, 0, 0, 0, 0, 40, 2); pixman_image_unref(dw); }
     static uint32_t apix[DW * DH];
     shared_acc = body_make_shared_acc(apix);
     pixman_image_composite32(PIXMAN_OP_OVER, shared_acc, NULL, d, 0, 0, 0, 0, 0, 0, DW, DH);
@@ -51,6 +54,7 @@ int main(int argc, char **argv)
     if (!pixman_image_unref(shared_grad)) refs_bad |= 2;
     if (!pixman_image_unref(shared_clipped)) refs_bad |= 4;
     if (!pixman_image_unref(shared_acc)) refs_bad |= 8;
+    if (!pixman_image_unref(shared_tile)) refs_bad |= 16;
     if (refs_bad) printf("SHARED-IMAGE-STILL-REFERENCED mask=%d (the harness held the only reference to each shared image)\n", refs_bad);
     printf("TSAN-PASS-DONE threads=%d rounds=%d ops=%d\n", NTHREADS, rounds, NTHREADS * rounds * N_BODY_OPS);
     return 0;
